@@ -36,6 +36,7 @@ def fresh_names(rng, pools):
 
 def run(chk):
     proved = setup(chk, "C15")
+    basesuites.run_kw(chk)
     basesuites.run_uni(chk)
     rng = rng_for(chk, 15)
     quick = chk.tier == "quick"
